@@ -33,6 +33,7 @@ class Check(object):
     self.rules = {}           # rule id -> description
     self.assumptions = []
     self.extra = {}
+    self.more_evaluations = 0   # cases enumerated inside single obligations
     self.min_instances = {}   # rule id -> minimal obligation count
     self.known = [k for k in load_known() if k.get('property') == pid]
 
@@ -138,7 +139,7 @@ class Check(object):
               "/repo's current source; distinct+nontrivial = distinct "
               '(rule, file, function, construct) keys that matched a real '
               'construct'),
-        evaluations=len(self.obligations),
+        evaluations=len(self.obligations) + self.more_evaluations,
         distinct_nontrivial=len(distinct),
         obligations=len(self.obligations),
         discharged=len(self.obligations) - len(failed),
